@@ -208,7 +208,13 @@ def install_fault(program, fault, state):
         return lambda: None
     exc = EXC[exc_name]
     entry = [s for s in STAGES[program] if s[0] == stage][0]
-    owner, name = resolve(entry[1], entry[2])
+    try:
+        owner, name = resolve(entry[1], entry[2])
+        getattr(owner, name)
+    except (ImportError, AttributeError):
+        # the stage function does not exist (any more) under this name: nothing to inject
+        state["unresolved"] = True
+        return lambda: None
     orig = owner.__dict__[name] if isinstance(owner, type) and name in owner.__dict__ else getattr(owner, name)
     is_static = isinstance(orig, (staticmethod, classmethod))
     func = orig.__func__ if is_static else orig
@@ -325,6 +331,11 @@ def check(spec, ctx):
         undo()
     after = snapshot(outdir)
     label = "no_fault" if not fault else f"{program}:{fault['stage']}:{fault['pos']}"
+    if fault and not natural and state.get("unresolved"):
+        if error is not None:
+            raise crash(f"{program}:unexpected_failure", error)
+        ctx.label("stage_unresolved")
+        fault = None
     if fault and not natural and not (state["reached"] or state.get("fired")):
         # the stage is not on the path of this input (e.g. dsDNA completion, ligand split): nothing injected
         if error is not None:
